@@ -1,9 +1,455 @@
-"""placeholder, filled below"""
+"""Merged (fork-free) z3 versions of hot leaf helpers ("summaries").
+
+Each summary is the oracle function for that helper; the equivalence real-helper == summary is
+re-proved on every run (vf/lemmas.py) before a check may use it.  ``install(ok)`` rebinds only the
+summaries whose lemma holds (ok[name] is True); with ok=None everything is installed (lemma runs
+themselves use summaries=False).  Summaries apply only inside their proven domain (guards below);
+outside it the original function runs.
+"""
+import sys
+
+import z3
+
+from spec import pseudo as P
+from spec import state as ST
+from . import core
+from .core import SymInt, SymBool, to_bv, U, mk, ext, bits_for, sym_int, tobool, mkbool
+
+ORIG = {}
+_active = {}
+
+MODES = {'usr': 0b10000, 'fiq': 0b10001, 'irq': 0b10010, 'svc': 0b10011, 'mon': 0b10110, 'abt': 0b10111,
+         'hyp': 0b11010, 'und': 0b11011, 'sys': 0b11111}
 
 
-def install(lemma_ok=None):
-    pass
+def sym_ite(c, a, b):
+    """exact integer if-then-else over (Sym)ints; c: z3 Bool"""
+    c = z3.simplify(c)
+    if z3.is_true(c):
+        return a
+    if z3.is_false(c):
+        return b
+    ea, la, ha = core._parts(a)
+    eb, lb, hb = core._parts(b)
+    lo, hi = min(la, lb), max(ha, hb)
+    w = bits_for(lo, hi)
+    xa = z3.BitVecVal(la, w) if ea is None else ext(ea, w)
+    xb = z3.BitVecVal(lb, w) if eb is None else ext(eb, w)
+    return mk(z3.If(c, xa, xb), lo, hi)
+
+
+# ---------------------------------------------------------------------------
+# register banking (ARM ARM B1.3.2, table B1-2)
+# ---------------------------------------------------------------------------
+
+def bank_candidates(n, have_sec, have_virt):
+    """for register number n (0..14): ordered list of (RName member name, [modes]) ; last entry modes=None = default"""
+    if n <= 7:
+        return [('R%dusr' % n, None)]
+    if n <= 12:
+        return [('R%dfiq' % n, [MODES['fiq']]), ('R%dusr' % n, None)]
+    if n == 13:
+        c = [('SPfiq', [MODES['fiq']]), ('SPirq', [MODES['irq']]), ('SPsvc', [MODES['svc']]),
+             ('SPabt', [MODES['abt']]), ('SPund', [MODES['und']])]
+        if have_sec:
+            c.append(('SPmon', [MODES['mon']]))
+        if have_virt:
+            c.append(('SPhyp', [MODES['hyp']]))
+        return c + [('SPusr', None)]
+    c = [('LRfiq', [MODES['fiq']]), ('LRirq', [MODES['irq']]), ('LRsvc', [MODES['svc']]), ('LRabt', [MODES['abt']]),
+         ('LRund', [MODES['und']])]
+    if have_sec:
+        c.append(('LRmon', [MODES['mon']]))
+    return c + [('LRusr', None)]
+
+
+def bank_select(N, M, have_sec, have_virt, nmax=14):
+    """list of (member name, z3 cond) -- conditions are mutually exclusive and cover n in 0..nmax"""
+    out = []
+    for i in range(nmax + 1):
+        rest = z3.BoolVal(True)
+        for name, modes in bank_candidates(i, have_sec, have_virt):
+            if modes is None:
+                cnd = z3.And(N == i, rest)
+            else:
+                mc = z3.Or(*[M == m for m in modes])
+                cnd = z3.And(N == i, rest, mc)
+                rest = z3.And(rest, z3.Not(mc))
+            out.append((name, z3.simplify(cnd)))
+    return out
+
+
+def _cfg():
+    from armulator.armv6 import configurations as C
+    return bool(C.have_security_ext()), bool(C.have_virt_ext())
+
+
+def _small(x, hi):
+    t = type(x)
+    if t is int:
+        return 0 <= x <= hi
+    if t is SymInt:
+        return x.lo >= 0 and x.hi <= hi
+    return False
+
+
+def _all32(vals):
+    for v in vals:
+        t = type(v)
+        if t is int:
+            if not (0 <= v <= 0xFFFFFFFF):
+                return False
+        elif t is SymInt:
+            if v.lo < 0 or v.hi > 0xFFFFFFFF:
+                return False
+        else:
+            return False
+    return True
+
+
+def _rdict(self, names=None):
+    from armulator.armv6.registers import RName
+    return {k.name: to_bv(v, 32) for k, v in self._R.items() if names is None or k.name in names}
+
+
+def refine(x, hi):
+    """x if it is known (by interval, else by one solver query under the path condition) to lie in [0, hi];
+    returns the value with a tightened interval, or None"""
+    t = type(x)
+    if t is int:
+        return x if 0 <= x <= hi else None
+    if t is not SymInt:
+        return None
+    if x.lo >= 0 and x.hi <= hi:
+        return x
+    w = bits_for(min(x.lo, 0), max(x.hi, hi))
+    e = ext(x.e, w)
+    bad = z3.Or(e < 0, e > z3.BitVecVal(hi, w))
+    if core.CTX.check(bad) != z3.unsat:
+        return None
+    return mk(e, max(x.lo, 0), min(x.hi, hi))
+
+
+def s_get_rmode(self, n, mode):
+    if type(n) is int and type(mode) is int:
+        return ORIG['get_rmode'](self, n, mode)
+    n0, m0 = n, mode
+    n, mode = refine(n, 14), refine(mode, 31)
+    if n is None or mode is None:
+        return ORIG['get_rmode'](self, n0, m0)
+    from armulator.armv6.registers import RName
+    hs, hv = _cfg()
+    if _all32(self._R.values()):
+        # shared term construction with the oracle (spec.state.bank_get)
+        nn = n if type(n) is int else to_bv(n, 4)
+        return U(ST.bank_get(_rdict(self), nn, to_bv(mode, 5), hs, hv), 32)
+    N, M = to_bv(n, 5), to_bv(mode, 6)
+    res = None
+    for name, c in bank_select(N, M, hs, hv):
+        if z3.is_false(c):
+            continue
+        v = self._R[RName[name]]
+        res = v if res is None else sym_ite(c, v, res)
+    return res
+
+
+def s_set_rmode(self, n, mode, value):
+    if type(n) is int and type(mode) is int:
+        return ORIG['set_rmode'](self, n, mode, value)
+    n0, m0 = n, mode
+    n, mode = refine(n, 14), refine(mode, 31)
+    if n is None or mode is None:
+        return ORIG['set_rmode'](self, n0, m0, value)
+    from armulator.armv6.registers import RName
+    hs, hv = _cfg()
+    if _all32(self._R.values()) and _all32([value]):
+        R = _rdict(self)
+        before = dict(R)
+        nn = n if type(n) is int else to_bv(n, 4)
+        ST.bank_set(R, nn, to_bv(mode, 5), to_bv(value, 32), None, hs, hv)
+        for name, t in R.items():
+            if t is not before[name]:
+                self._R[RName[name]] = U(t, 32)
+        return
+    N, M = to_bv(n, 5), to_bv(mode, 6)
+    for name, c in bank_select(N, M, hs, hv):
+        if z3.is_false(c):
+            continue
+        k = RName[name]
+        self._R[k] = sym_ite(c, value, self._R[k])
+
+
+def s_get(self, n):
+    if type(n) is int:
+        if n == 15:
+            return ORIG['get'](self, n)
+        return s_get_rmode(self, n, self.cpsr.m)
+    n0 = n
+    n = refine(n, 15)
+    if n is None:
+        return ORIG['get'](self, n0)
+    if type(n) is int:
+        return s_get(self, n)
+    pcv = ORIG['get'](self, 15)
+    if n.lo == 15:
+        return pcv
+    N = to_bv(n, 5)
+    if n.hi == 15:
+        nn = mk(z3.If(N == 15, z3.BitVecVal(0, 5), N), 0, 14)
+        if _all32(self._R.values()) and _all32([pcv]):
+            hs, hv = _cfg()
+            r = ST.bank_get(_rdict(self), to_bv(n, 4), to_bv(self.cpsr.m, 5), hs, hv)
+            return U(z3.If(to_bv(n, 4) == 15, to_bv(pcv, 32), r), 32)
+        r = s_get_rmode(self, nn, self.cpsr.m)
+        return sym_ite(N == 15, pcv, r)
+    return s_get_rmode(self, n, self.cpsr.m)
+
+
+def s_set(self, n, value):
+    if type(n) is int:
+        self.changed_registers[n] = True
+        return s_set_rmode(self, n, self.cpsr.m, value)
+    n0 = n
+    n = refine(n, 14)
+    if n is None:
+        return ORIG['set'](self, n0, value)
+    if type(n) is int:
+        return s_set(self, n, value)
+    N = to_bv(n, 5)
+    for i in range(n.lo, n.hi + 1):
+        old = self.changed_registers[i]
+        self.changed_registers[i] = mkbool(z3.Or(tobool(old), N == i))
+    s_set_rmode(self, n, self.cpsr.m, value)
+
+
+_SPSR_ATTR = [('fiq', 'spsr_fiq'), ('irq', 'spsr_irq'), ('svc', 'spsr_svc'), ('mon', 'spsr_mon'), ('abt', 'spsr_abt'),
+              ('hyp', 'spsr_hyp'), ('und', 'spsr_und')]
+
+
+def _spsr_modes():
+    hs, hv = _cfg()
+    out = []
+    for k, attr in _SPSR_ATTR:
+        if k == 'mon' and not hs:
+            continue
+        if k == 'hyp' and not hv:
+            continue
+        out.append((MODES[k], attr))
+    return out
+
+
+def s_get_spsr(self):
+    m = self.cpsr.m
+    if type(m) is int:
+        return ORIG['get_spsr'](self)
+    M = to_bv(m, 6)
+    res = 0  # user/system/bad mode: UNPREDICTABLE, the code returns 0
+    for mode, attr in _spsr_modes():
+        res = sym_ite(M == mode, getattr(self, attr), res)
+    core.CTX.event('summary', 'get_spsr')
+    return res
+
+
+def s_set_spsr(self, value):
+    m = self.cpsr.m
+    if type(m) is int:
+        return ORIG['set_spsr'](self, value)
+    M = to_bv(m, 6)
+    for mode, attr in _spsr_modes():
+        setattr(self, attr, sym_ite(M == mode, value, getattr(self, attr)))
+
+
+def _mode_pred(pred):
+    def f(self):
+        m = self.cpsr.m
+        if type(m) is int:
+            return ORIG[pred](self)
+        m = refine(m, 31)
+        if m is None:
+            return ORIG[pred](self)
+        M = to_bv(m, 5)
+        if pred == 'current_mode_is_not_user':
+            return mkbool(M != MODES['usr'])
+        if pred == 'current_mode_is_hyp':
+            return mkbool(M == MODES['hyp'])
+        return mkbool(z3.Or(M == MODES['usr'], M == MODES['sys']))
+    f.__name__ = 's_' + pred
+    return f
+
+
+s_current_mode_is_not_user = _mode_pred('current_mode_is_not_user')
+s_current_mode_is_hyp = _mode_pred('current_mode_is_hyp')
+s_current_mode_is_user_or_system = _mode_pred('current_mode_is_user_or_system')
+
+
+def s_bad_mode(self, mode):
+    if type(mode) is int:
+        return ORIG['bad_mode'](self, mode)
+    m = refine(mode, 31)
+    if m is None:
+        return ORIG['bad_mode'](self, mode)
+    hs, hv = _cfg()
+    M = to_bv(m, 5)
+    ok = [M == MODES[k] for k in ('usr', 'fiq', 'irq', 'svc', 'abt', 'und', 'sys')]
+    if hs:
+        ok.append(M == MODES['mon'])
+    if hv:
+        ok.append(M == MODES['hyp'])
+    return mkbool(z3.Not(z3.Or(*ok)))
+
+
+def s_condition_passed(self):
+    cond = self.current_cond()
+    if type(cond) is int and not core.is_sym(self.registers.cpsr.value):
+        return ORIG['condition_passed'](self)
+    v = to_bv(self.registers.cpsr.value, 32)
+    n, zf, c, vf = [z3.Extract(i, i, v) == 1 for i in (31, 30, 29, 28)]
+    return mkbool(P.condition_holds(to_bv(cond, 4), n, zf, c, vf))
+
+
+# ---------------------------------------------------------------------------
+# bits_ops / shift
+# ---------------------------------------------------------------------------
+
+def s_to_signed(bits, length):
+    if type(bits) is not SymInt or type(length) is not int or bits.lo < 0 or bits.hi >= (1 << length):
+        return ORIG['to_signed'](bits, length)
+    e = to_bv(bits, length)
+    return mk(z3.SignExt(1, e), -(1 << (length - 1)), (1 << (length - 1)) - 1)
+
+
+def s_add_with_carry(x, y, carry_in, size=32):
+    if type(size) is not int or not (_small(x, (1 << size) - 1) and _small(y, (1 << size) - 1)
+                                     and (type(carry_in) in (bool, SymBool) or _small(carry_in, 1))) \
+            or not (core.is_sym(x) or core.is_sym(y) or core.is_sym(carry_in)):
+        return ORIG['add_with_carry'](x, y, carry_in, size)
+    r, c, o = P.add_with_carry(to_bv(x, size), to_bv(y, size), to_bv(carry_in, 1))
+    return U(r, size), U(P.bv(c, 1), 1), U(P.bv(o, 1), 1)
+
+
+def _kind(type_o):
+    from armulator.armv6.shift import SRType
+    return {SRType.LSL: 0, SRType.LSR: 1, SRType.ASR: 2, SRType.ROR: 3, SRType.RRX: 4}[type_o]
+
+
+def s_shift_c(value, value_len, type_o, amount, carry_in):
+    if value_len != 32 or not _small(value, 0xFFFFFFFF) or not _small(amount, 255) or \
+            not (type(carry_in) in (bool, SymBool) or _small(carry_in, 1)) or \
+            not (core.is_sym(value) or core.is_sym(amount)):
+        return ORIG['shift_c'](value, value_len, type_o, amount, carry_in)
+    k = _kind(type_o)
+    if k == 4:
+        if not (type(amount) is int and amount == 1):
+            return ORIG['shift_c'](value, value_len, type_o, amount, carry_in)
+    r, c = P.shift_c(to_bv(value, 32), k, to_bv(amount, 9), to_bv(carry_in, 1) == 1)
+    return U(r, 32), U(P.bv(c, 1), 1)
+
+
+def s_shift(value, value_len, type_o, amount, carry_in):
+    return s_shift_c(value, value_len, type_o, amount, carry_in)[0]
+
+
+def s_signed_sat_q(i, n):
+    if type(i) is not SymInt or type(n) is not int or n < 1 or n > 64:
+        return ORIG['signed_sat_q'](i, n)
+    w = max(bits_for(i.lo, i.hi), n + 1)
+    r, s = P.signed_sat_q(ext(i.e, w), n)
+    return U(r, n), mkbool(s)
+
+
+def s_unsigned_sat_q(i, n):
+    if type(i) is not SymInt or type(n) is not int or n < 0 or n > 64:
+        return ORIG['unsigned_sat_q'](i, n)
+    if n == 0:
+        return ORIG['unsigned_sat_q'](i, n)
+    w = max(bits_for(i.lo, i.hi), n + 2)
+    r, s = P.unsigned_sat_q(ext(i.e, w), n)
+    return U(r, n), mkbool(s)
+
+
+def s_lowest_set_bit_ref(x, length=32):
+    if type(x) is not SymInt or type(length) is not int or x.lo < 0 or x.hi >= (1 << length):
+        return ORIG['lowest_set_bit_ref'](x, length)
+    return U(P.lowest_set_bit(to_bv(x, length)), 8)
+
+
+# name -> (kind, owner spec, attribute, replacement)
+def _table():
+    from armulator.armv6 import bits_ops, shift
+    from armulator.armv6.registers import Registers
+    from armulator.armv6.arm_v6 import ArmV6
+    return {
+        'to_signed': ('func', bits_ops, 'to_signed', s_to_signed),
+        'add_with_carry': ('func', bits_ops, 'add_with_carry', s_add_with_carry),
+        'signed_sat_q': ('func', bits_ops, 'signed_sat_q', s_signed_sat_q),
+        'unsigned_sat_q': ('func', bits_ops, 'unsigned_sat_q', s_unsigned_sat_q),
+        'lowest_set_bit_ref': ('func', bits_ops, 'lowest_set_bit_ref', s_lowest_set_bit_ref),
+        'shift_c': ('func', shift, 'shift_c', s_shift_c),
+        'shift': ('func', shift, 'shift', s_shift),
+        'get_rmode': ('method', Registers, 'get_rmode', s_get_rmode),
+        'set_rmode': ('method', Registers, 'set_rmode', s_set_rmode),
+        'get': ('method', Registers, 'get', s_get),
+        'set': ('method', Registers, 'set', s_set),
+        'get_spsr': ('method', Registers, 'get_spsr', s_get_spsr),
+        'set_spsr': ('method', Registers, 'set_spsr', s_set_spsr),
+        'condition_passed': ('method', ArmV6, 'condition_passed', s_condition_passed),
+        'current_mode_is_not_user': ('method', Registers, 'current_mode_is_not_user', s_current_mode_is_not_user),
+        'current_mode_is_hyp': ('method', Registers, 'current_mode_is_hyp', s_current_mode_is_hyp),
+        'current_mode_is_user_or_system': ('method', Registers, 'current_mode_is_user_or_system',
+                                           s_current_mode_is_user_or_system),
+        'bad_mode': ('method', Registers, 'bad_mode', s_bad_mode),
+    }
+
+
+NAMES = ['to_signed', 'add_with_carry', 'signed_sat_q', 'unsigned_sat_q', 'lowest_set_bit_ref', 'shift_c', 'shift',
+         'get_rmode', 'set_rmode', 'get', 'set', 'get_spsr', 'set_spsr', 'condition_passed',
+         'current_mode_is_not_user', 'current_mode_is_hyp', 'current_mode_is_user_or_system', 'bad_mode']
+
+
+def _save_originals(tab):
+    for name, (kind, owner, attr, rep) in tab.items():
+        if name not in ORIG:
+            ORIG[name] = getattr(owner, attr)
+
+
+def install(ok=None):
+    """install summaries whose lemma holds (ok: dict name->bool, or None = all)"""
+    import armulator.armv6.arm_v6  # noqa
+    tab = _table()
+    _save_originals(tab)
+    uninstall()
+    for name, (kind, owner, attr, rep) in tab.items():
+        if ok is not None and not ok.get(name, False):
+            continue
+        orig = ORIG[name]
+        if kind == 'method':
+            setattr(owner, attr, rep)
+        else:
+            for mname, mod in list(sys.modules.items()):
+                if mname.startswith('armulator') and mod is not None:
+                    for k, v in list(vars(mod).items()):
+                        if v is orig:
+                            setattr(mod, k, rep)
+        _active[name] = True
 
 
 def uninstall():
-    pass
+    if not ORIG:
+        return
+    tab = _table()
+    for name in list(_active):
+        kind, owner, attr, rep = tab[name]
+        orig = ORIG[name]
+        if kind == 'method':
+            setattr(owner, attr, orig)
+        else:
+            for mname, mod in list(sys.modules.items()):
+                if mname.startswith('armulator') and mod is not None:
+                    for k, v in list(vars(mod).items()):
+                        if v is rep:
+                            setattr(mod, k, orig)
+        _active.pop(name)
+
+
+def active():
+    return sorted(_active)
